@@ -303,6 +303,90 @@ def eval_json_cases(ck, name, rows):
     return ids_of(m.group(1)), ids_of(v.group(1)), out
 
 
+def cparams(P, params):
+    return coq_list(["(%s, %s)" % (P.s(p["label"]), coq_list(
+        [("PKey %s" % P.s(unhex(x.get("key", "")))) if x["str"] else ("PIdx %s" % P.z(x["idx"])) for x in p["path"]])) for p in params or []])
+
+
+def eval_logfmt_cases(ck, name, rows):
+    P = Pool()
+    body = ";\n  ".join("{| l_id := %d; l_params := %s; l_pairs := %s; l_obs := %s |}" % (
+        i, cparams(P, r.get("params")),
+        ("(Some %s)" % coq_list(["(%s, %s)" % (P.s(unhex(k)), P.s(unhex(v))) for k, v in r.get("pairs") or []])) if r.get("pairs_ok") else "None",
+        P.l(r.get("kv") or {})) for i, r in rows)
+    txt = (PRELUDE.replace("model.InternalEngine.", "model.InternalEngine model.InternalJson.") + "\n".join(P.defs) +
+           "\nDefinition cases : list lcase := [\n  " + body + "].\n"
+           "Definition M := Eval vm_compute in logfmt_mismatches cases.\nPrint M.\n"
+           "Definition V := Eval vm_compute in logfmt_spec_violations cases.\nPrint V.\n")
+    rc, out = ck.coq_eval(name, txt)
+    if rc != 0:
+        return None, None, out
+    flat = " ".join(out.split())
+    m = re.search(r"M = \[(.*?)\]\s*: list Z", flat)
+    v = re.search(r"V = \[(.*?)\]\s*: list Z", flat)
+    if not m or not v:
+        return None, None, out
+    return ids_of(m.group(1)), ids_of(v.group(1)), out
+
+
+NONASCII = re.compile(rb"[\x80-\xff]")
+
+
+def multibyte_keys(r):
+    """does a key of the row (json tree keys at any depth / logfmt pair keys) hold a byte >= 0x80; written with escapes only?"""
+    def keys(n):
+        if not n:
+            return
+        for kv in n.get("kv") or []:
+            yield unhex(kv["k"])
+            yield from keys(kv["v"])
+        for x in n.get("l") or []:
+            yield from keys(x)
+    ks = list(keys(r.get("tree"))) + [unhex(k) for k, _ in r.get("pairs") or []]
+    mb = any(NONASCII.search(k) for k in ks)
+    return mb, mb and not NONASCII.search(unhex(r["msg"]))
+
+
+def run_logfmt_rows(ck, cases, label):
+    """the logfmt stage's own code (HandleLogfmt: sanitizeLabel on every key, the field table of `| logfmt l="key"`) =
+    model/InternalJson.v over the pairs of the decoder kr/logfmt"""
+    seen, rows = set(), []
+    for c in cases:
+        for r in (c.get("tab") or {}).get("parse") or []:
+            if not r.get("logfmt"):
+                continue
+            key = json.dumps([r.get("params"), r["msg"]], sort_keys=True)
+            if key in seen:
+                continue
+            seen.add(key)
+            rows.append(r)
+    if not rows:
+        return
+    rows = list(enumerate(rows))
+    m, v, out = eval_logfmt_cases(ck, "C09_%s_logfmt" % label, rows)
+    if m is None:
+        ck.obligation("%s: logfmt rows evaluated inside Coq" % label, False, out[-2500:])
+        return
+    ck.obligation("%s: logfmt stage (sanitizeLabel on every key, later pair wins, field table of `| logfmt l=\"key\"`) = model InternalJson.logfmt_decode over the pairs of kr/logfmt on %d distinct (parameters, line) rows" % (label, len(rows)),
+                  not m, "rows %s" % m[:10])
+    ck.obligation("%s: the labels `| logfmt` assigns are the pairs of the line under the names the definition by value gives them (one _ per character outside [a-zA-Z0-9_]); a field label holds the last value of its key; on the observed labels" % label, not v, "rows %s" % v[:10])
+    byi = dict(rows)
+    bad = v or m
+    if bad:
+        r = min((byi[i] for i in bad), key=lambda r: len(r["msg"]))
+        ck.violation({"property": PID, "kind": ("the logfmt stage names / assigns a label differently from the LogQL definition" if v else "model/implementation disagree on the logfmt stage"),
+                      "line": unhex(r["msg"]).decode("utf8", "replace"), "line_hex": r["msg"], "query": '{app="x"} | logfmt' + (" " + ", ".join('%s=<path>' % p["label"] for p in r.get("params") or []) if r.get("params") else ""),
+                      "params": r.get("params"), "observed_labels": r.get("kv"), "pairs_of_the_decoder": [[unhex(k).decode("utf8", "replace"), unhex(x).decode("utf8", "replace")] for k, x in r.get("pairs") or []],
+                      "replay": "ParserPlanner{Op: logfmt, ParameterNames/Values from params} on the single line: harness inteng --cases with {\"query\": ..., \"in\": [[{\"msg\": line_hex, \"labels\": {}}]]}"}, no_input=not v)
+    h = ck.extra.setdefault("logfmt_rows", {"rows": 0, "with_params": 0, "refused_by_decoder": 0, "multibyte_key": 0, "needs_sanitising": 0})
+    h["rows"] += len(rows)
+    for _, r in rows:
+        h["with_params"] += bool(r.get("params"))
+        h["refused_by_decoder"] += not r.get("pairs_ok")
+        h["multibyte_key"] += multibyte_keys(r)[0]
+        h["needs_sanitising"] += any(re.search(rb"[^a-zA-Z0-9_]", unhex(k)) for k, _ in r.get("pairs") or [])
+
+
 def jdepth(n):
     if not n:
         return 0
@@ -333,15 +417,17 @@ def run_json_rows(ck, cases, label):
         return
     ck.obligation("%s: json stage (nested-key flattening, sanitizeLabel, path walker with array indexes) = model InternalJson.json_decode over the jx value tree on %d distinct (parameters, line) rows" % (label, len(rows)),
                   not m, "rows %s" % m[:10])
-    ck.obligation("%s: every json parameter label holds what the path finds in the document and nothing else is assigned (jlookup, distinct names), every name `| json` assigns is sanitised, on the observed labels" % label, not v, "rows %s" % v[:10])
+    ck.obligation("%s: every json parameter label holds what the path finds in the document and nothing else is assigned (jlookup, distinct names); the labels `| json` assigns are the scalar leaves of the document under the names the definition by value gives them (members joined with _, one _ per CHARACTER outside [a-zA-Z0-9_]: json_all_ref), on the observed labels" % label, not v, "rows %s" % v[:10])
     byi = dict(rows)
     bad = v or m
     if bad:
         r = min((byi[i] for i in bad), key=lambda r: len(r["msg"]))
-        ck.violation({"property": PID, "kind": ("a json stage assigns a label that is not what its path finds in the line / not a sanitised name" if v else "model/implementation disagree on the json stage"),
-                      "line": unhex(r["msg"]).decode("utf8", "replace"), "params": r.get("params"), "observed_labels": r.get("kv"), "tree": r.get("tree"),
+        ck.violation({"property": PID, "kind": ("a json stage assigns a label that is not what its path finds in the line / names a label differently from the LogQL definition (one _ per character)" if v else "model/implementation disagree on the json stage"),
+                      "line": unhex(r["msg"]).decode("utf8", "replace"), "line_hex": r["msg"], "query": '{app="x"} | json' + (" " + ", ".join('%s=<path>' % p["label"] for p in r.get("params") or []) if r.get("params") else ""),
+                      "params": r.get("params"), "observed_labels": r.get("kv"), "tree": r.get("tree"),
                       "replay": "ParserPlanner{Op: json, ParameterNames/Values from params} on the single line (harness inteng Mode json)"}, no_input=not v)
-    h = ck.extra.setdefault("json_rows", {"rows": 0, "with_params": 0, "refused_by_jx": 0, "depth>=3": 0, "skip_walk_disagree": 0, "needs_sanitising": 0, "index_paths": 0})
+    h = ck.extra.setdefault("json_rows", {"rows": 0, "with_params": 0, "refused_by_jx": 0, "depth>=3": 0, "skip_walk_disagree": 0, "needs_sanitising": 0, "index_paths": 0,
+                                          "multibyte_key": 0, "multibyte_key_written_as_escapes": 0})
     h["rows"] += len(rows)
     h["skip_walk_disagree"] += odd
     for _, r in rows:
@@ -350,6 +436,9 @@ def run_json_rows(ck, cases, label):
         h["depth>=3"] += jdepth(r.get("tree")) >= 3
         h["needs_sanitising"] += any(re.search(rb"[^a-zA-Z0-9_]", k.encode()) for k in (r.get("kv") or {})) or (not r.get("params") and bool(re.search(rb'"[^"]*[^a-zA-Z0-9_"][^"]*"\s*:', unhex(r["msg"]))))
         h["index_paths"] += any(not x["str"] for p in r.get("params") or [] for x in p["path"])
+        mb, esc = multibyte_keys(r)
+        h["multibyte_key"] += mb
+        h["multibyte_key_written_as_escapes"] += esc
 
 
 PIPE = {"line_filter": "PLineFilter", "label_filter": "PLabelFilter", "json": "PJson", "json_params": "PJsonParams", "logfmt": "PLogfmt",
@@ -422,6 +511,7 @@ def load(path):
 
 def run_cases(ck, cases, label):
     run_json_rows(ck, cases, label)
+    run_logfmt_rows(ck, cases, label)
     cases = [c for c in cases if c.get("mode", "") != "json"]
     chain_cases = [c for c in cases if c.get("mode", "") != "fp"]
     fp_cases = [c for c in cases if c.get("mode", "") == "fp"]
@@ -459,10 +549,13 @@ def run_cases(ck, cases, label):
     ck.obligation("%s: the pipelined chain and the stage-by-stage replay send the same entries" % label, not pipe_bad, "cases: %s" % [c["id"] for c in pipe_bad[:5]])
     mism, viol = [], []
     shard = 300
-    shards = [(k // shard, runnable[k:k + shard]) for k in range(0, len(runnable), shard)]
+    # a many-series case (2000+ entries) costs as much as a thousand ordinary ones: it gets a shard of its own, evaluated first
+    big = [c for c in runnable if sum(len(b) for b in c["in"]) >= 500]
+    small = [c for c in runnable if sum(len(b) for b in c["in"]) < 500]
+    shards = [("big%d" % k, [c]) for k, c in enumerate(big)] + [(k // shard, small[k:k + shard]) for k in range(0, len(small), shard)]
     from concurrent.futures import ThreadPoolExecutor
     with ThreadPoolExecutor(max_workers=4) as ex:
-        results = list(ex.map(lambda a: eval_chain_cases(ck, "C09_%s_%d" % (label, a[0]), a[1]), shards))
+        results = list(ex.map(lambda a: eval_chain_cases(ck, "C09_%s_%s" % (label, a[0]), a[1]), shards))
     for m, v, out in results:
         if m is None:
             ck.obligation("%s: cases evaluated inside Coq" % label, False, out[-2500:])
